@@ -21,159 +21,60 @@ from .c01 import BODY, FLAT, handler_bindings, handlers_of, point_fields
 from .c04 import _propositional
 
 
-def loop_summary(fi: FunctionInfo) -> List[Tuple]:
-    """[(param index, iterated attr / method, callee, ((test kind, action), ...))] for each top-level for loop"""
-    out = []
-    for st in fi.node.body:
-        if not isinstance(st, ast.For):
-            continue
-        it = st.iter
-        src = None
-        if isinstance(it, ast.Attribute) and isinstance(it.value, ast.Name) and it.value.id in fi.params:
-            src = (fi.params.index(it.value.id), it.attr)
-        elif isinstance(it, ast.Call) and isinstance(it.func, ast.Attribute) and isinstance(it.func.value, ast.Name) \
-                and it.func.value.id in fi.params:
-            src = (fi.params.index(it.func.value.id), it.func.attr + "()")
-        callee = None
-        other = None
-        arms: List[Tuple[str, str]] = []
-        var = None
-        for b in st.body:
-            if isinstance(b, ast.Assign) and isinstance(b.value, ast.Call):
-                c = b.value
-                if isinstance(c.func, ast.Attribute) and c.func.attr == "intersection" and len(c.args) == 1:
-                    callee = "intersection"
-                    var = txt(b.targets[0])
-                    o = c.args[0]
-                    other = fi.params.index(o.id) if isinstance(o, ast.Name) and o.id in fi.params else txt(o)
-                elif isinstance(c.func, ast.Name) and c.func.id == "intersection" and len(c.args) == 2:
-                    callee = "intersection"
-                    var = txt(b.targets[0])
-                    os_ = [a for a in c.args if not (isinstance(a, ast.Name) and a.id == getattr(st.target, "id", None))]
-                    other = fi.params.index(os_[0].id) if os_ and isinstance(os_[0], ast.Name) and os_[0].id in fi.params else None
-            if isinstance(b, ast.If):
-                rows, els = if_chain(b)
-                for test, body in rows:
-                    t = txt(test)
-                    kind = t.replace(var or "\0", "v") if var else t
-                    act = "other"
-                    if any(isinstance(x, ast.Continue) for x in body):
-                        act = "continue"
-                    elif any(isinstance(x, ast.Pass) for x in body) and len(body) == 1:
-                        act = "continue"
-                    elif any(isinstance(c2, ast.Call) and isinstance(c2.func, ast.Attribute) and c2.func.attr == "add"
-                             for x in body for c2 in ast.walk(x)):
-                        act = "add"
-                    elif any(isinstance(x, ast.Return) for x in body):
-                        act = "return"
-                    arms.append((kind, act))
-                if els:
-                    arms.append(("else", "raise" if any(isinstance(x, ast.Raise) for x in els) else "other"))
-        out.append((src, callee, other, tuple(arms)))
-    return out
-
-
 def r22(ctx, res):
+    """boundary-family completeness on candidate-origin families: which parts of the operands are offered to the result
+    (independent of whether the code uses loops, comprehensions, local flags or private helpers)"""
+    from ..origins import check_families, get_origins
+
     repo = ctx.repo
     aux = "calc.aux_calc"
+    hb = handler_bindings(ctx)
+    n = 0
+
+    def hit(*xs):
+        return "hit(%s)" % " | ".join(sorted(xs))
+
     seg_h = repo.fn("get_segment_convexpolyhedron_intersection_point_set", aux)
     hl_h = repo.fn("get_halfline_convexpolyhedron_intersection_point_set", aux)
     pg_h = repo.fn("get_segment_convexpolygon_intersection_point_set", aux)
-    n = 0
-    sums = {}
+    fams_of = {}
     for h in (seg_h, hl_h):
-        s = loop_summary(h)
-        sums[h.name] = s
-        fams = {x[0][1] for x in s if x[0] is not None and x[0][0] == 1 and x[1] == "intersection"}
-        for fam, what in (("convex_polygons", "faces"), ("segment_set", "edges")):
-            n += 1
-            ok = fam in fams
-            res.ob("R2.2", h.where(), "%s visits the %s" % (h.short, what), ok,
-                   "loop over cph.%s intersecting each element with the %s" % (fam, h.params[0]) if ok else "no such loop")
-            if not ok:
-                res.violation("R2.2", h, h.node, "%s does not intersect the %s with the %s of the polyhedron: hits through %s are lost"
-                              % (h.short, h.params[0], what, "a vertex/edge" if fam == "segment_set" else "the interior of a face"),
-                              construct="%s misses %s" % (h.short, fam))
-        for src, callee, other, arms in s:
-            n += 1
-            adds = [k for k, a in arms if a == "add"]
-            ok = callee == "intersection" and any("Point" in k for k in adds) and other == 0
-            res.ob("R2.2", h.where(), "%s loop over %s" % (h.short, src), ok,
-                   "Point hits are collected; arms %s" % (arms,) if ok else "arms %s" % (arms,))
-            if not ok:
-                res.violation("R2.2", h, h.node, "%s: the loop over %s does not collect the Point hits of element x %s (arms: %s)"
-                              % (h.short, src, h.params[0], arms), construct="%s loop %s actions" % (h.short, src))
+        F, K = h.params[0], h.params[1]
+        req = [hit("%s.convex_polygons[*]" % K, F), hit("%s.segment_set[*]" % K, F)]
+        n += check_families(ctx, res, "R2.2", h, req, "faces AND edges of the polyhedron (hits through a vertex or along an edge are "
+                            "only found by the edge family, hits in the interior of a face only by the face family)")
+        fams_of[h.name] = {f.replace(" | %s)" % F, " | <flat>)").replace("(%s | " % F, "(<flat> | ").replace(K, "<body>")
+                           for f in get_origins(ctx).families(h.name)}
     n += 1
-    same = sums[seg_h.name] == sums[hl_h.name]
+    same = fams_of[seg_h.name] == fams_of[hl_h.name]
     res.ob("R2.2", seg_h.where(), "sibling helpers agree (segment / half-line vs polyhedron)", same,
-           "identical abstract summaries: %s" % (sums[seg_h.name],) if same else "%s vs %s" % (sums[seg_h.name], sums[hl_h.name]))
+           "identical candidate families: %s" % sorted(fams_of[seg_h.name]) if same else "%s vs %s" % (
+               sorted(fams_of[seg_h.name]), sorted(fams_of[hl_h.name])))
     if not same:
         res.violation("R2.2", hl_h, hl_h.node,
-                      "the two polyhedron hit-set helpers are siblings but differ: %s has %s, %s has %s" % (
-                          seg_h.short, sums[seg_h.name], hl_h.short, sums[hl_h.name]), construct="sibling helper summaries differ")
-    # polygon helper and the in-plane line/polygon case iterate the full edge cycle
-    for fi, holder in ((pg_h, 1), (repo.fn("inter_line_convexpolygon", "calc.intersection"), 1)):
-        n += 1
-        loops = [x for x in walk_local(fi.node) if isinstance(x, ast.For) and isinstance(x.iter, ast.Call)
-                 and isinstance(x.iter.func, ast.Attribute) and x.iter.func.attr == "segments"
-                 and isinstance(x.iter.func.value, ast.Name) and x.iter.func.value.id == fi.params[holder]]
-        ok = bool(loops)
-        res.ob("R2.2", fi.where(), "%s visits every edge of the polygon" % fi.short, ok,
-               "loop over %s.segments()" % fi.params[holder] if ok else "no loop over the edge cycle")
-        if not ok:
-            res.violation("R2.2", fi, fi.node, "%s does not iterate over %s.segments(): hits on some edges are lost" % (
-                fi.short, fi.params[holder]), construct="%s edge cycle" % fi.short)
-    # contained end points / origin are added in the polyhedron handlers
-    hb = handler_bindings(ctx)
+                      "the two polyhedron hit-set helpers are siblings but consult different candidate families: %s has %s, %s has %s" % (
+                          seg_h.short, sorted(fams_of[seg_h.name]), hl_h.short, sorted(fams_of[hl_h.name])),
+                      construct="sibling helper families differ")
+    F, K = pg_h.params[0], pg_h.params[1]
+    n += check_families(ctx, res, "R2.2", pg_h, [hit("%s.segments()[*]" % K, F)], "the full edge cycle of the polygon")
+    fi = repo.fn("inter_line_convexpolygon", "calc.intersection")
+    L, K = fi.params[0], fi.params[1]
+    n += check_families(ctx, res, "R2.2", fi, [hit("%s.segments()[*]" % K, L)], "the full edge cycle of the polygon in the in-plane case")
+    fi = repo.fn("inter_line_convexpolyhedron", "calc.intersection")
+    L, K = fi.params[0], fi.params[1]
+    n += check_families(ctx, res, "R2.2", fi, [hit("%s.convex_polygons[*]" % K, L)], "every face of the polyhedron")
+    fi = repo.fn("inter_plane_convexpolyhedron", "calc.intersection")
+    P, K = fi.params[0], fi.params[1]
+    n += check_families(ctx, res, "R2.2", fi, ["%s.convex_polygons[*]" % K, hit(P, "%s.segment_set[*]" % K)],
+                        "faces lying in the plane, and every edge cut by the plane")
     for name, flat_idx in (("inter_segment_convexpolyhedron", 0), ("inter_convexpolyhedron_halfline", 1)):
         fi = repo.fn(name, "calc.intersection")
         X = fi.params[flat_idx]
         Y = fi.params[1 - flat_idx]
         tX = hb[name][flat_idx]
-        for f in point_fields(ctx, tX):
-            n += 1
-            found = False
-            for st in walk_local(fi.node):
-                if isinstance(st, ast.If):
-                    rows, _ = if_chain(st)
-                    for test, body in rows:
-                        t = txt(test)
-                        if ("%s.%s in %s" % (X, f, Y)) in t and ("not %s.%s in %s" % (X, f, Y)) not in t:
-                            if any(isinstance(c, ast.Call) and isinstance(c.func, ast.Attribute) and c.func.attr == "add"
-                                   and c.args and txt(c.args[0]) == "%s.%s" % (X, f) for b in body for c in ast.walk(b)):
-                                found = True
-            res.ob("R2.2", fi.where(), "%s adds the contained %s.%s" % (fi.short, X, f), found,
-                   "`%s.%s in %s` guards the add" % (X, f, Y) if found else "never added")
-            if not found:
-                res.violation("R2.2", fi, fi.node, "%s never adds %s.%s when it lies inside the polyhedron: a %s starting inside loses "
-                              "its interior end" % (fi.short, X, f, tX), construct="%s: contained %s.%s" % (fi.short, X, f))
-    # every result return lies behind all candidate families
-    for h in (seg_h, hl_h, pg_h):
-        fams = [st for st in h.node.body if isinstance(st, ast.For)]
-        if fams:
-            n += report_bypass(ctx, res, h, "R2.2", fams, h.node.body, "boundary families of the helper")
-    for name in ("inter_segment_convexpolyhedron", "inter_convexpolyhedron_halfline", "inter_line_convexpolyhedron",
-                 "inter_plane_convexpolyhedron"):
-        fi = repo.fn(name, "calc.intersection")
-        fams = []
-        for st in fi.node.body:
-            if isinstance(st, ast.For):
-                fams.append(st)
-            elif isinstance(st, ast.Assign) and isinstance(st.value, ast.Call) and isinstance(st.value.func, ast.Name) \
-                    and st.value.func.id.endswith("_intersection_point_set"):
-                fams.append(st)
-            elif isinstance(st, ast.If) and any(isinstance(c, ast.Call) and isinstance(c.func, ast.Attribute) and c.func.attr == "add"
-                                                for c in ast.walk(st)):
-                fams.append(st)
-        if fams:
-            n += report_bypass(ctx, res, fi, "R2.2", fams, fi.node.body, "hit set, contained end points")
-    fi = repo.fn("inter_line_convexpolygon", "calc.intersection")
-    for st in walk_local(fi.node):
-        if isinstance(st, ast.If):
-            for body in (st.body, st.orelse):
-                fams = [x for x in body if isinstance(x, ast.For)]
-                if fams:
-                    n += report_bypass(ctx, res, fi, "R2.2", fams, body, "edges of the polygon in the in-plane case")
+        req = ["%s.%s" % (X, f) for f in point_fields(ctx, tX)]
+        req += [hit(X, "%s.convex_polygons[*]" % Y), hit(X, "%s.segment_set[*]" % Y)]
+        n += check_families(ctx, res, "R2.2", fi, req, "contained end points / origin, face hits and edge hits")
     ctx.require(res, "R2.2", n, 22, "boundary-family obligations")
 
 
@@ -198,14 +99,30 @@ def run(ctx, res):
     res.extra["helper_summaries"] = {k: sorted(v) for k, v in cf.helper_sum.items()}
     r22(ctx, res)
     fi = ctx.repo.fn("inter_segment_convexpolyhedron", "calc.intersection")
-    raises = [r for r in walk_local(fi.node) if isinstance(r, ast.Raise)]
+    from ..astutil import expand_locals
+    g = ctx.cfg(fi)
+
+    def case_split_raise(R) -> bool:
+        """a raise that is not guarded by the runtime cardinality of the hit set: it closes the end-point case split"""
+        nodes = g.nodes_of(R)
+        if not nodes:
+            return False
+        for c, _, _l in g.dominating_edges(nodes[0]):
+            e = expand_locals(fi.node, g.nodes[c].ast, fi.params)
+            if any(isinstance(x, ast.Call) and isinstance(x.func, ast.Name) and x.func.id == "len" for x in ast.walk(e)):
+                return False  # guarded by the runtime cardinality of the hit set: not the case split (NOT decided)
+        return True
+
+    raises = [r for r in walk_local(fi.node) if isinstance(r, ast.Raise) and case_split_raise(r)]
     done = False
     for R in raises:
         ok, why = _propositional(ctx, fi, R)
         if ok:
             res.ob("R2.3", fi.where(R), "end-point case split of %s" % fi.short, True, why)
             done = True
-    if not done:
+    if not raises:
+        res.ob("R2.3", fi.where(), "end-point case split of %s" % fi.short, True, "no internal raise is guarded by the end-point case split alone", nontrivial=False)
+    elif not done:
         res.ob("R2.3", fi.where(), "end-point case split of %s" % fi.short, False, "no propositionally exhaustive split found")
         res.violation("R2.3", fi, fi.node, "the case split over `start_point in b` / `end_point in b` in %s is not exhaustive: "
                       "some combination reaches the internal raise or is unhandled" % fi.short, construct="%s case split" % fi.short)
